@@ -273,15 +273,17 @@ Definition is_cogrouped (g : graph) (i : nat) : bool :=
   match nth_error g i with Some (Cogrouped _ _ _ _) => true | _ => false end.
 Definition nat_in (i : nat) (l : list nat) : bool := existsb (Nat.eqb i) l.
 
+(* the events of one callback, as a multiset (sorted): the order in which the callback walks the
+   registered nodes is not part of the property *)
 Definition obs_events (g : graph) (sinks : list nat) (evs : list event) : val :=
-  VList (flat_map (fun e =>
+  VList (sort_vals (flat_map (fun e =>
     match e with
     | EvPop i => [VTup [VInt 0; zi i]]
     | EvFire i t args =>
         if is_cogrouped g i then []
         else if nat_in i sinks then [VTup [VInt 2; zi i; VInt t; contents_rv (hd RNone args)]]
         else [VTup [VInt 1; zi i]]
-    end) evs).
+    end) evs)).
 
 Definition obs_states (st : state) : val :=
   VList (map (fun s => VTup [VInt (ctime s); obs_rv (crdd s)]) (ns st)).
